@@ -449,10 +449,12 @@ Definition dcsim_run (case : list Z) : list Z := [].
 (* output: ops, then (expected_duplicate, code) per packet fed, then -1, then
    read, correct, dup_changed_state, acks_subset, acked_count, max_data_monotone, eof, total.
    code: 0 accepted, 1 refused as Duplicate, 2 other error.
-   A packet whose (space, number) was accepted before must be refused (as Duplicate, or -- when the
-   duplicate is first noticed inside the reassembler's read and the authenticity re-check then runs on the
-   already decrypted buffer -- with another non-fatal error) and must leave the buffer unchanged; a packet
-   with a fresh number (authentic, within the window) must be accepted. *)
+   A packet whose (space, number) was accepted before must leave the buffered bytes unchanged
+   (dup_changed_state = 0), whatever it returns: Duplicate when it reaches the packet-number filter,
+   another non-fatal error when the duplicate is first noticed inside the reassembler's read, or Ok when
+   its bytes are already buffered (the reassembler skips it without even decrypting) or the stream has
+   finished.  While the stream is still receiving (marker <> 2) a packet with a fresh number (authentic,
+   within the window) must be accepted. *)
 Fixpoint recv_pairs_ok (l : list Z) : option (list Z) :=
   match l with
   | [] => None
@@ -461,7 +463,7 @@ Fixpoint recv_pairs_ok (l : list Z) : option (list Z) :=
       match t with
       | [] => None
       | code :: t' =>
-          if (if (d =? 1)%Z then (code =? 1)%Z || (code =? 2)%Z else (d =? 0)%Z && (code =? 0)%Z)
+          if (if (d =? 1)%Z then true else if (d =? 2)%Z then true else (d =? 0)%Z && (code =? 0)%Z)
           then recv_pairs_ok t' else None
       end
   end.
